@@ -1,10 +1,12 @@
 package main
 
 import (
+	"crypto/sha256"
 	"fmt"
 	"math"
 	"math/rand"
 	"strings"
+	"unicode/utf8"
 )
 
 // symbols used for nasty keys / values / patterns: JSON-sensitive characters, HTML-escaped ones,
@@ -227,4 +229,124 @@ func (g *gen) listPath(m *CAS) string {
 		n := 1 + g.r.Intn(len(segs))
 		return strings.Join(segs[:n], "/")
 	}
+}
+
+// ---- value sizes --------------------------------------------------------------------------
+//
+// The store is generic (no documented value limit), so a handful of updates per "sized" case
+// carry values at buffer-size boundaries: 0, 1, 4 KiB +-1, 64 KiB +-2 (and a little below, where
+// the JSON-encoded pair crosses 64 KiB), 128 KiB, 1 MiB.
+
+var boundarySizes = []int{0, 1, 4095, 4096, 4097, 65534, 65535, 65536, 65537}
+
+// sizeClassOf the i-th layer-1 case: 0 small values only, 1 up to 64 KiB+1, 2 additionally
+// 128 KiB, 3 additionally 1 MiB (recorded in the case id, so a replay does not depend on it).
+// JSON under the race detector runs at roughly 10 MB/s and every stored byte passes through
+// it 20-25 times (proposals, results, mismatch answers, snapshots, restores, catch-up): a
+// class-1 case costs ~0.5 s, a class-3 case seconds of CPU against ~25 ms for class 0. Hence
+// fixed small shares, smaller in the thorough tier whose case list is 50 times longer.
+func sizeClassOf(i int, thorough bool) int {
+	m := [3]int{40, 150, 500}
+	if thorough {
+		m = [3]int{80, 400, 2000}
+	}
+	switch {
+	case i%m[2] == 7:
+		return 3
+	case i%m[1] == 3:
+		return 2
+	case i%m[0] == 1:
+		return 1
+	}
+	return 0
+}
+
+// pickSize draws a value size for a sized update; nLarge counts the >= 128 KiB values already
+// used by the case (at most one 1 MiB / two 128 KiB), n64 the ~64 KiB ones (at most two).
+func pickSize(r *rand.Rand, class int, nLarge, n64 *int) int {
+	if class >= 2 && *nLarge < 4-class && r.Intn(2) == 0 {
+		*nLarge++
+		if class == 3 {
+			return 1 << 20
+		}
+		return 128 << 10
+	}
+	size := boundarySizes[r.Intn(len(boundarySizes))]
+	if r.Intn(4) == 0 {
+		size = 65536 - r.Intn(160) // encoded pair just below / above 64 KiB
+	}
+	if size > 60000 {
+		if *n64 >= 2 {
+			return boundarySizes[r.Intn(5)]
+		}
+		*n64++
+	}
+	return size
+}
+
+// sizedValue returns valid UTF-8 of exactly size bytes that starts with tag (cut to fit):
+// plain letters, letters sprinkled with characters JSON escapes, or with multi-byte runes.
+func sizedValue(r *rand.Rand, size int, tag string) string {
+	var sb strings.Builder
+	sb.Grow(size)
+	if len(tag) > size {
+		tag = tag[:size] // tags are ASCII
+	}
+	sb.WriteString(tag)
+	mode := r.Intn(3)
+	var cb strings.Builder
+	for cb.Len() < 180+r.Intn(120) {
+		switch {
+		case mode == 1 && r.Intn(40) == 0:
+			cb.WriteString([]string{"<", "\"", "\u2028", "\\", "&", "\n"}[r.Intn(6)])
+		case mode == 2 && r.Intn(12) == 0:
+			cb.WriteString([]string{"日", "\U0001F600", "é"}[r.Intn(3)])
+		default:
+			cb.WriteByte(byte('a' + r.Intn(26)))
+		}
+	}
+	chunk := cb.String()
+	for sb.Len()+len(chunk) <= size {
+		sb.WriteString(chunk)
+	}
+	for _, c := range chunk {
+		if sb.Len()+len(string(c)) > size {
+			break
+		}
+		sb.WriteRune(c)
+	}
+	for sb.Len() < size {
+		sb.WriteByte('x')
+	}
+	return sb.String()
+}
+
+func sizeBucket(n int) string {
+	switch {
+	case n == 0:
+		return "0"
+	case n < 4095:
+		return "<4KiB"
+	case n < 65000:
+		return "4KiB.."
+	case n < 70000:
+		return "~64KiB"
+	case n < 1<<20:
+		return "128KiB"
+	}
+	return "1MiB"
+}
+
+// short renders a string for messages, witnesses and samples: long ones are cut and
+// identified by length and digest.
+func short(s string) string {
+	if len(s) <= 120 {
+		return s
+	}
+	cut := 40
+	for cut > 0 && !utf8.RuneStart(s[cut]) {
+		cut--
+	}
+	h := sha256.Sum256([]byte(s))
+	return fmt.Sprintf("%s…[%d bytes, sha256 %x]", s[:cut], len(s), h[:6])
 }
